@@ -36,7 +36,7 @@ Bits(n) == IF n < 0 THEN {-1} ELSE {i \in 0..15 : (n \div (2^i)) % 2 = 1}
 ToHop(h) == [in |-> h.in, eg |-> h.eg, as |-> h.as, bc |-> Bits(h.bc), ok |-> h.ok, ia |-> h.ia,
              ea |-> h.ea, sig |-> Bits(h.sig), x |-> h.x]
 ToInf(i) == [c |-> i.c, p |-> i.p, sid |-> Bits(i.sid)]
-ToPkt(j) == [src |-> j.src, dst |-> j.dst, ci |-> j.ci, ch |-> j.ch, sl |-> j.sl, mo |-> j.mo,
+ToPkt(j) == [src |-> j.src, dst |-> j.dst, ci |-> j.ci, ch |-> j.ch, sl |-> j.sl, mo |-> j.mo, pt |-> j.pt,
              infos |-> [i \in DOMAIN j.infos |-> ToInf(j.infos[i])],
              hops |-> [i \in (j.hw + 1)..(j.hw + Len(j.hops)) |-> ToHop(j.hops[i - j.hw])]]
 
@@ -223,12 +223,18 @@ JourneyEnd ==
         IF st.answered >= 1 /\ ~st.scmpDelivered THEN "answer:" \o st.answer \o ":not-delivered-to-source"
         ELSE IF J.mode = "alert" /\ st.answered = 0 THEN "traceroute:not-answered:" \o J.desc.side
         ELSE ""
-    ELSE IF J.mode # "honest" THEN ""
-    ELSE IF Prop = "C02" /\ ~st.reqDelivered /\ Len(J.ifs) > 0 THEN "req:journey-ends-without-delivery"
+    ELSE IF J.mode \notin {"honest", "ohp"} THEN ""
+    ELSE IF Prop = "C02" /\ J.mode = "honest" /\ J.pt = "scion" /\ ~st.reqDelivered /\ Len(J.ifs) > 0
+         THEN "req:journey-ends-without-delivery"
     ELSE IF Prop = "C03" /\ st.reqDelivered /\ J.rev # "none" /\ ~st.repDelivered
          THEN "rep:journey-ends-without-delivery"
     ELSE ""
-EndOK == IF JourneyEnd = "" THEN TRUE ELSE PrintT(<<"VERIF-BAD", l - 1, JourneyEnd>>)
+\* outside the listed properties (C03 speaks about delivered requests only): an honest EPIC or
+\* one-hop request that does not arrive is reported as drift
+EndNote == IF ~failed /\ J.mode \in {"honest", "ohp"} /\ J.pt # "scion" /\ ~st.reqDelivered /\ Len(J.ifs) > 0
+           THEN Drift("request-not-delivered:" \o J.pt) ELSE TRUE
+EndOK == /\ EndNote
+         /\ IF JourneyEnd = "" THEN TRUE ELSE PrintT(<<"VERIF-BAD", l - 1, JourneyEnd>>)
 
 Reset == /\ EndOK
          /\ J' = R /\ leg' = "req" /\ k' = 0 /\ st' = St0 /\ failed' = FALSE
@@ -253,14 +259,14 @@ Hop ==
     ELSE IF leg # "scmp" /\ R.j # leg THEN Bad("harness:leg-tag")
     ELSE
     LET honest == J.mode = "honest"
-        v == IF Prop = "C02" /\ honest /\ leg = "req" THEN HonestHopVerdict
-             ELSE IF Prop = "C03" /\ honest /\ leg = "rep" THEN HonestHopVerdict
+        v == IF Prop = "C02" /\ honest /\ J.pt = "scion" /\ leg = "req" THEN HonestHopVerdict
+             ELSE IF Prop = "C03" /\ J.mode \in {"honest", "ohp"} /\ leg = "rep" THEN HonestHopVerdict
              ELSE IF Prop = "C22" /\ honest /\ leg \in {"req", "rep"} THEN C22Verdict
              ELSE IF Prop = "C07" THEN C07Verdict
              ELSE IF Prop = "C10" /\ leg = "scmp" /\ J.mode \in {"fault", "alert"} THEN C10HopVerdict
              ELSE ""
     IN IF v # "" THEN Bad((IF leg = "scmp" THEN "answer:" \o st.answer ELSE leg) \o ":" \o v)
-       ELSE /\ (honest /\ leg \in {"req", "rep"} => DriftCheck)
+       ELSE /\ (honest /\ leg \in {"req", "rep"} /\ R.pre.pt \in {"scion", "epic"} => DriftCheck)
             /\ Advance
 
 Host == \* a host received a packet (observation; delivery was judged at the hop event)
@@ -273,7 +279,8 @@ Reply == \* the destination host answers along the reversed path (real reversal 
          /\ UNCHANGED <<topo, J, st, failed>>
 
 Scmp == \* the slow path produced (or not) an answer
-    IF J.mode = "honest" /\ ((Prop = "C02" /\ leg = "req") \/ (Prop = "C03" /\ leg = "rep"))
+    IF ((Prop = "C02" /\ leg = "req" /\ J.mode = "honest" /\ J.pt = "scion")
+        \/ (Prop = "C03" /\ leg = "rep" /\ J.mode \in {"honest", "ohp"}))
     THEN Bad(leg \o ":slow-path-on-honest-journey")
     ELSE IF Prop = "C10" /\ J.mode = "alert" /\ leg = "req" /\ ~R.err /\ AlertVerdict # "" THEN Bad(AlertVerdict)
     ELSE LET ans == ~R.err /\ R.built /\ R.m.is IN
@@ -289,7 +296,7 @@ Scmp == \* the slow path produced (or not) an answer
          /\ UNCHANGED <<topo, J, failed>>
 
 HostErr ==
-    IF Prop = "C03" /\ J.mode = "honest" THEN Bad("rep:host-cannot-reverse:" \o R.what)
+    IF Prop = "C03" /\ J.mode \in {"honest", "ohp"} THEN Bad("rep:host-cannot-reverse:" \o J.pt)
     ELSE UNCHANGED <<topo, J, leg, k, at, st, failed>>
 
 Step == /\ l <= Len(Trace)
